@@ -19,8 +19,20 @@ fn stats(m: &FreeSpaceManager) -> (u64, u64, u64) {
 /// `slack`: bytes beyond the last whole block (a device whose size is not a multiple of the block
 /// size has `hi` usable blocks: the trailing partial block belongs to nobody).
 fn fresh_with(hi: u64, slack: u64) -> FreeSpaceManager {
+    use std::sync::atomic::{AtomicU64, Ordering};
+    static BUILT: AtomicU64 = AtomicU64::new(0);
     let mut m = FreeSpaceManager::new();
-    m.initialize(hi * BLOCK + slack).expect("initialize");
+    // the two ways the store builds its allocator: a fresh device (`initialize`), and the rebuild after a
+    // recovery scan (`set_device_size`, then the gaps released one by one); alternating per reset
+    if BUILT.fetch_add(1, Ordering::Relaxed) % 2 == 0 {
+        m.initialize(hi * BLOCK + slack).expect("initialize");
+    } else {
+        m.set_device_size(hi * BLOCK + slack);
+        let lo = 16u64;
+        let mid = lo + (hi - lo) / 2;
+        if mid > lo { m.release_sectors(lo, mid - lo).expect("release gap"); }
+        m.release_sectors(mid, hi - mid).expect("release gap");
+    }
     m
 }
 
